@@ -20,7 +20,9 @@ type Lock struct {
 	IsLock    bool   // secret is a NUT-10 P2PK/HTLC secret
 	Kind      string // "P2PK" | "HTLC"
 	Data      string
-	Malformed bool // tags / keys malformed: statement silent (only "no panic")
+	Malformed bool // tags / keys malformed: the statement only keeps its core (see EvalInput)
+	// LocktimeUnknown: a locktime tag is present but cannot be read (no value, not a number)
+	LocktimeUnknown bool
 	SigAll    bool
 	NSigs     int
 	HasNSigs  bool
@@ -58,6 +60,9 @@ func ParseLock(secret string) Lock {
 	for _, tag := range body.Tags {
 		if len(tag) < 2 {
 			l.Malformed = true
+			if len(tag) == 1 && tag[0] == "locktime" {
+				l.LocktimeUnknown = true
+			}
 			continue
 		}
 		switch tag[0] {
@@ -89,7 +94,7 @@ func ParseLock(secret string) Lock {
 		case "locktime":
 			n, err := strconv.ParseInt(tag[1], 10, 64)
 			if err != nil {
-				l.Malformed = true
+				l.Malformed, l.LocktimeUnknown = true, true
 			} else {
 				l.Locktime, l.HasLock = n, n > 0
 			}
@@ -206,12 +211,29 @@ func EvalInput(secret, witness string, now int64, verify SigVerifier) Verdict {
 	if !l.IsLock {
 		return Verdict{Necessary: true, Sufficient: true, Why: "plain"}
 	}
-	if l.Malformed {
-		return Verdict{Necessary: true, Silent: true, Why: "malformed_lock"}
-	}
 	w := ParseWitness(witness)
 	h := sha256.Sum256([]byte(secret))
 	msg := h[:]
+	if l.Malformed {
+		// How a verifier treats a lock with malformed tags (refuse it, or ignore the tag) is its own business. What no
+		// reading allows is to drop the lock altogether: unless the lock may have expired into "anyone can spend", an
+		// accepted witness holds the core of the condition - the preimage of the hash (HTLC), or at least one valid
+		// signature by a key named anywhere in the secret (P2PK: lock key, pubkeys, refund keys).
+		if l.LocktimeUnknown || (l.HasLock && now > l.Locktime) {
+			return Verdict{Necessary: true, Silent: true, Why: "malformed_lock"}
+		}
+		keys := append(append([]string{}, l.Pubkeys...), l.Refund...)
+		if l.Kind == "P2PK" {
+			keys = append(keys, l.Data)
+			return Verdict{Necessary: distinctValid(keys, msg, w.Signatures, verify) >= 1, Why: "malformed_lock_core"}
+		}
+		if len(l.Data) != 64 {
+			return Verdict{Necessary: true, Silent: true, Why: "malformed_lock"}
+		}
+		pre, err := hex.DecodeString(w.Preimage)
+		hp := sha256.Sum256(pre)
+		return Verdict{Necessary: err == nil && strings.EqualFold(hex.EncodeToString(hp[:]), l.Data), Why: "malformed_lock_core"}
+	}
 	if l.HasLock && now > l.Locktime {
 		if len(l.Refund) == 0 {
 			return Verdict{Necessary: true, Sufficient: true, Why: "expired_no_refund_anyone"}
